@@ -126,8 +126,12 @@ func runC04Etcd(c *harness.Case) {
 	if len(missing) > 0 {
 		c.Violatef("C04 revision-never-resolved request=negative-or-future-etcd-mod-revision", wit, "revisions %v were handed out but never resolved after etcd transactions with negative/far-future mod revisions: the read revision can never pass %d (dropped notify calls: %d)", firstN(missing, 5), missing[0]-1, dropped)
 	} else {
-		if !n.WaitCommitted(dealt, 60*time.Second) {
+		if reached, skipped := n.CommittedOrSkipped(dealt, 5000, 60*time.Second); skipped {
+			c.Violatef("C04 deposited-revision-never-consumed", wit, "every revision up to %d was reported to the sequencer, yet it polled the slot of revision %d five thousand times and found it empty: the read revision stays at %d for good", dealt, n.Committed()+1, n.Committed())
+			return
+		} else if !reached {
 			c.Inconclusive("watchdog: all revisions deposited but read revision did not reach dealt")
+			return
 		}
 		probe := harness.Prefix + "/zz-probe"
 		resp, err := n.Create(probe, []byte("p"))
